@@ -15,7 +15,7 @@ func init() {
 		"(dawg.AnagramSearcher).AllowStep", "(dawg.AnagramSearcher).AllowWord", "(dawg.AnagramSearcher).Chosen"}
 	register(&propDef{
 		id:          "C13",
-		explanation: "Decides the structural part of the last sentence ('a search leaves the Dawg unchanged ...'): PURE ((*Dawg).Search, with Searcher calls resolved by module-restricted CHA to both implementations, writes nothing reachable from the Dawg), SEARCHER-RO (AllowStep, AllowWord and Chosen of both searchers write nothing reachable from the receiver, including through the counts/currPath slices a value receiver still shares), STEP-ONLY (inside Search the only instructions that may write searcher memory are the interface calls Step and Backstep), BALANCE (on every path to a return each searcher has received as many Backstep as Step calls: a local stack is pushed exactly once per complete Step pass over the searchers, popped exactly once per Backstep pass, nothing else changes it, and every return is guarded by its being empty); NARROW and MASKWIDTH (narrowing integer conversions, and the shift counts of one-bit masks indexed by a position, are proved to fit: a 64-bit mask of blank positions forgets position 64) FIXEDARRAY (no fixed-size scratch array of package dawg is indexed by a counter that is not proved to stay in range), COUNTERWIDTH (no tally kept in an 8/16-bit cell is bumped without a proof that it stays in range) and SORTLESS (the comparator of every sort.Slice call in package dawg indexes the slice being sorted and no other: sorted with a comparator over the unsorted original, equal letters are not adjacent, the anagram searcher's count table gets several entries for one letter, and Backstep returns a letter to the first of them only, so a search does not leave the searcher as it found it) and FRESHROOT (the root a re-initialised builder starts from shares no memory with its previous state, so building the next Dawg cannot edit one that is being searched) and OWN-PATTERN (the searchers' constructors keep a copy of the pattern / letters: the value they return reaches no memory of the caller's slice, so a repeated search matches the same pattern). Does not decide the result set, its order, the ranks, or that Backstep exactly undoes Step.",
+		explanation: "Decides the structural part of the last sentence ('a search leaves the Dawg unchanged ...'): PURE ((*Dawg).Search, with Searcher calls resolved by module-restricted CHA to both implementations, writes nothing reachable from the Dawg), SEARCHER-RO (AllowStep, AllowWord and Chosen of both searchers write nothing reachable from the receiver, including through the counts/currPath slices a value receiver still shares), STEP-ONLY (inside Search the only instructions that may write searcher memory are the interface calls Step and Backstep), BALANCE (on every path to a return each searcher has received as many Backstep as Step calls: a local stack is pushed exactly once per complete Step pass over the searchers, popped exactly once per Backstep pass, nothing else changes it, and every return is guarded by its being empty); NARROW and MASKWIDTH (narrowing integer conversions, and the shift counts of one-bit masks indexed by a position, are proved to fit: a 64-bit mask of blank positions forgets position 64) FIXEDARRAY (no fixed-size scratch array of package dawg is indexed by a counter that is not proved to stay in range), COUNTERWIDTH (no tally kept in an 8/16-bit cell is bumped without a proof that it stays in range) and SORTLESS (the comparator of every sort.Slice call in package dawg indexes the slice being sorted and no other: sorted with a comparator over the unsorted original, equal letters are not adjacent, the anagram searcher's count table gets several entries for one letter, and Backstep returns a letter to the first of them only, so a search does not leave the searcher as it found it) and FRESHROOT (the root a re-initialised builder starts from shares no memory with its previous state, so building the next Dawg cannot edit one that is being searched) and OWN-PATTERN (the searchers' constructors keep a copy of the pattern / letters: the value they return reaches no memory of the caller's slice, so a repeated search matches the same pattern) and STALEPTR (no store goes through the address of a slice element taken before an append to that slice: a search frame's resume position written after the child frame was pushed is lost when the stack grows). Does not decide the result set, its order, the ranks, or that Backstep exactly undoes Step.",
 		notDecided:  []string{"that Search returns exactly the matching words in lexicographic order with correct ranks", "that Backstep restores exactly what Step changed (letter accounting)", "that Backstep exactly undoes one Step (BALANCE only counts calls)"},
 		assumptions: []string{"searchers passed to Search are the module's PatternSearcher/AnagramSearcher (closed world); a user-defined Searcher is outside the claim"},
 		run: func(c *Ctx, tier string) []*RuleResult {
@@ -51,7 +51,7 @@ func init() {
 				}
 				freshResult(c, op, fn, 0, slices, nil, "does not alias the caller's slice")
 			}
-			return []*RuleResult{pure, ro, so, bal, nw, mw, fa, cw, sl, fr, op}
+			return []*RuleResult{pure, ro, so, bal, nw, mw, fa, cw, sl, fr, op, ruleStalePtr(c, "dawg")}
 		},
 		controls: func(ctl *Ctx) []*RuleResult {
 			ro := &RuleResult{Rule: "SEARCHER-RO"}
@@ -77,7 +77,7 @@ func init() {
 			fr := &RuleResult{Rule: "FRESHROOT"}
 			ruleFreshRoot(ctl, fr, "(*sealctl.B5).BadInitKeepsSlices", "node")
 			ruleFreshRoot(ctl, fr, "(*sealctl.B5).GoodInit", "node")
-			return []*RuleResult{ro, so, bal, nw, mw, fa, cw, ruleSortLess(ctl, "balctl"), fr}
+			return []*RuleResult{ro, so, bal, nw, mw, fa, cw, ruleSortLess(ctl, "balctl"), fr, ruleStalePtr(ctl, "balctl")}
 		},
 	})
 }
@@ -1113,5 +1113,150 @@ func ruleSortLess(c *Ctx, pkgRel string) *RuleResult {
 		}
 	}
 	r.inst("%d functions of package %s scanned for sort.Slice comparators", nf, pkgRel)
+	return r
+}
+
+// ruleStalePtr: `p := &s[i]` followed by `s = append(s, ...)` followed by a store through p: when the
+// append reallocates, p still points into the old array and the store is lost (a search frame whose
+// resume position is written after the child frame was pushed). Reported when a store through an
+// element address of a slice is reachable from an append to that slice that the address computation
+// dominates, without the address being computed again in between.
+func ruleStalePtr(c *Ctx, pkgRel string) *RuleResult {
+	r := &RuleResult{Rule: "STALEPTR", Doc: "no store goes through the address of a slice element that was taken before an append to that slice", MinInst: 1}
+	nf := 0
+	for _, fn := range c.Funcs {
+		p := fnPkg(fn)
+		if p == nil || p.Pkg.Path() != c.Mod+"/"+pkgRel || fn.Synthetic != "" || fn.Blocks == nil {
+			continue
+		}
+		nf++
+		family := func(v ssa.Value) map[ssa.Value]bool {
+			seen := map[ssa.Value]bool{}
+			var walk func(v ssa.Value)
+			walk = func(v ssa.Value) {
+				if v == nil || seen[v] {
+					return
+				}
+				seen[v] = true
+				switch x := v.(type) {
+				case *ssa.Phi:
+					for _, e := range x.Edges {
+						walk(e)
+					}
+				case *ssa.Slice:
+					walk(x.X)
+				case *ssa.UnOp:
+					if x.Op == token.MUL {
+						if al, ok := x.X.(*ssa.Alloc); ok {
+							walk(al)
+						}
+					}
+				case *ssa.Call:
+					if b, ok := x.Call.Value.(*ssa.Builtin); ok && b.Name() == "append" {
+						walk(x.Call.Args[0])
+					}
+				}
+			}
+			walk(v)
+			return seen
+		}
+		pos := func(in ssa.Instruction) int {
+			for i, x := range in.Block().Instrs {
+				if x == in {
+					return i
+				}
+			}
+			return -1
+		}
+		var appends []*ssa.Call
+		for _, b := range fn.Blocks {
+			for _, in := range b.Instrs {
+				if call, ok := in.(*ssa.Call); ok {
+					if bi, isB := call.Call.Value.(*ssa.Builtin); isB && bi.Name() == "append" {
+						appends = append(appends, call)
+					}
+				}
+			}
+		}
+		for _, b := range fn.Blocks {
+			for _, in := range b.Instrs {
+				st, ok := in.(*ssa.Store)
+				if !ok {
+					continue
+				}
+				// the element address the store goes through
+				a := st.Addr
+				for {
+					if fa, ok := a.(*ssa.FieldAddr); ok {
+						a = fa.X
+						continue
+					}
+					break
+				}
+				ia, ok := a.(*ssa.IndexAddr)
+				if !ok {
+					continue
+				}
+				if _, isSlice := ia.X.Type().Underlying().(*types.Slice); !isSlice {
+					continue
+				}
+				fam := family(ia.X)
+				for _, ap := range appends {
+					if !fam[ap.Call.Args[0]] && !family(ap.Call.Args[0])[ia.X] {
+						shared := false
+						for v := range family(ap.Call.Args[0]) {
+							if fam[v] {
+								shared = true
+							}
+						}
+						if !shared {
+							continue
+						}
+					}
+					// ia is computed before ap
+					before := (ia.Block() == ap.Block() && pos(ia) < pos(ap)) || (ia.Block() != ap.Block() && ia.Block().Dominates(ap.Block()))
+					if !before {
+						continue
+					}
+					// st reachable from ap without ia being computed again
+					reach := false
+					if ap.Block() == st.Block() && pos(ap) < pos(st) {
+						reach = true
+					} else {
+						seen := map[*ssa.BasicBlock]bool{}
+						stack := append([]*ssa.BasicBlock{}, ap.Block().Succs...)
+						for len(stack) > 0 && !reach {
+							x := stack[len(stack)-1]
+							stack = stack[:len(stack)-1]
+							if seen[x] {
+								continue
+							}
+							seen[x] = true
+							if x == st.Block() && (x != ia.Block() || pos(st) < pos(ia)) {
+								reach = true
+								break
+							}
+							if x == ia.Block() {
+								continue // the address is computed afresh from here on
+							}
+							stack = append(stack, x.Succs...)
+						}
+					}
+					if !reach {
+						continue
+					}
+					src := c.srcAt(st.Pos())
+					if src == "" {
+						src = instrDesc(c, st)
+					}
+					r.inst("%s: %s", c.short(fn), src)
+					r.oblig(false)
+					r.find(c.short(fn)+":store through an element address taken before an append", c.instrPos(st), "%s: the store at %s goes through the address of an element of %s computed at %s, but %s may have been re-allocated by the append at %s in between: the write lands in the old array", c.short(fn), c.instrPos(st), valName(ia.X), c.instrPos(ia), valName(ia.X), c.instrPos(ap))
+					break
+				}
+			}
+		}
+	}
+	r.inst("%d functions of package %s scanned for stores through stale element addresses", nf, pkgRel)
 	return r
 }
